@@ -1,6 +1,7 @@
 package indep
 
 import (
+	"bytes"
 	"fmt"
 )
 
@@ -730,10 +731,11 @@ func (d *dec) tryPipelineV1Layout(b []byte, org uint64, n int) (fs []Filter, ok 
 		nameLen := int(c.u16("name length"))
 		f.Flags = c.u16("flags")
 		ncd := int(c.u16("ncd"))
-		if f.Flags&^uint16(1) != 0 || nameLen%8 != 0 || f.ID == 0 {
+		if f.Flags&^uint16(1) != 0 || f.ID == 0 {
 			return nil, false
 		}
-		nb := c.bytes(nameLen, "name")
+		// the name length field holds the unpadded length; the name itself is NUL-padded to a multiple of 8
+		nb := c.bytes((nameLen+7)&^7, "name")
 		for k, ch := range nb {
 			if ch == 0 {
 				nb = nb[:k]
@@ -809,7 +811,7 @@ func (d *dec) decodeFill(b []byte, org uint64) *fillMsg {
 	return m
 }
 
-func (d *dec) decodeLink(b []byte, org uint64) Link {
+func (d *dec) decodeLinkStrict(b []byte, org uint64) (Link, int) {
 	what := "link message"
 	c := d.cursor(b, org, what)
 	var l Link
@@ -853,7 +855,20 @@ func (d *dec) decodeLink(b []byte, org uint64) Link {
 		l.SoftPath = string(c.bytes(ln, "soft link value"))
 	case lt == 64:
 		l.Kind = "external"
+		vstart := c.pos
 		ln := int(c.u16("length of external link value"))
+		// library layout of the value: length(2) file name, length(2) object path; no version/flags byte, no NUL terminators
+		if rest := c.b[c.pos:]; ln <= len(rest)-2 && (ln == 0 || rest[0] != 0) {
+			n2 := int(rest[ln]) | int(rest[ln+1])<<8
+			if ln+2+n2 == len(rest) && !bytes.Contains(rest[:ln], []byte{0}) {
+				d.deviate("external-link-value-layout", "%s at 0x%x: external link value is stored as length+file name, length+object path; the format is a total length, a version/flags byte (0), then the NUL-terminated file name and object path", what, org)
+				l.ExtFile = string(rest[:ln])
+				l.ExtPath = string(rest[ln+2:])
+				c.pos = len(c.b)
+				break
+			}
+		}
+		_ = vstart
 		v := d.cursor(c.bytes(ln, "external link value"), org+uint64(c.pos-ln), what+" external link value")
 		vf := v.u8("external link version/flags")
 		if vf != 0 {
@@ -861,6 +876,9 @@ func (d *dec) decodeLink(b []byte, org uint64) Link {
 		}
 		l.ExtFile = v.cstr(0, "external file name")
 		l.ExtPath = v.cstr(0, "external object path")
+		if v.rem() != 0 {
+			d.fail("%s at 0x%x: %d bytes after the external link's object path", what, org, v.rem())
+		}
 	case lt >= 65:
 		l.Kind = "user-defined"
 		ln := int(c.u16("length of user-defined link data"))
@@ -868,6 +886,47 @@ func (d *dec) decodeLink(b []byte, org uint64) Link {
 	default:
 		d.fail("%s at 0x%x: link type %d is reserved", what, org, lt)
 	}
+	return l, c.pos
+}
+
+// decodeLink decodes a link message. exact: the encoding must fill b completely (fractal heap objects,
+// version 2 headers); otherwise up to 7 bytes of padding may follow.
+func (d *dec) decodeLink(b []byte, org uint64, exact bool) Link {
+	var l Link
+	var used int
+	var serr *specError
+	func() {
+		defer func() {
+			if r := recover(); r != nil {
+				if e, ok := r.(*specError); ok {
+					serr = e
+					return
+				}
+				panic(r)
+			}
+		}()
+		l, used = d.decodeLinkStrict(b, org)
+	}()
+	if serr == nil && (used == len(b) || (!exact && len(b)-used < 8)) {
+		return l
+	}
+	// library layout for densely stored hard links: version 1, flags 0, bytes 0x04 0x00, 1-byte name length, name, address
+	if len(b) >= 5+1+d.O && b[0] == 1 && b[1] == 0 && b[2] == 0x04 && b[3] == 0 && 5+int(b[4])+d.O == len(b) && b[4] > 0 {
+		strict := "the strict reading leaves bytes unexplained"
+		if serr != nil {
+			strict = "strict reading: " + serr.msg
+		}
+		d.deviate("dense-link-msg-layout", "link message at 0x%x: two extra bytes (0x04 0x00) between the flags byte (0) and the link name length (%s)", org, strict)
+		c := d.cursor(b, org, "link message")
+		c.skip(5, "prefix")
+		l = Link{Kind: "hard", Name: string(c.bytes(int(b[4]), "link name"))}
+		l.Addr = c.addr("object header address")
+		return l
+	}
+	if serr != nil {
+		panic(serr)
+	}
+	d.fail("link message at 0x%x: the encoding takes %d bytes but the message holds %d", org, used, len(b))
 	return l
 }
 
